@@ -786,6 +786,11 @@ func GenCrashScript(r *Rng, kind string, hist map[string]int) []string {
 		add("holebatch %d %d", 2+r.Intn(5), 1+r.Intn(2))
 		hist["crash_batch_with_a_lost_middle_block"]++
 	}
+	if kind == "batch" && r.Chance(1, 2) {
+		// a batch whose Commit the operating system refuses after pieces of it were flushed, then a committed batch, then a restart
+		add("orphanbatch %d", 4+r.Intn(5))
+		hist["crash_batch_refused_commit_then_committed_batch"]++
+	}
 	hist["crash_"+kind]++
 	return out
 }
